@@ -310,25 +310,39 @@ example :
     preProcess utype s [p "v" "0", p "w" "1", p "x" "2", p "w" "3", p "v" "4"] = [p "v" "0", p "x" "2", p "v" "4"] := by
   decide
 
-/-! ### outside the sequential model: the two-phase cache GC -/
+/-! ### the two-phase cache GC -/
 
-/-- **gc_race_releases_pending_work** — `util.Cache.ClearExpired` collects expired keys
-    under the read lock and deletes them later under the write lock without looking
-    again.  If `Accept` rewrites an expired-but-not-yet-collected record between the
-    two phases, the fresh record is deleted: `Accept` answered true, the log says `w`
-    has an accepted, unconfirmed report inside its window, yet the node would process
-    and propose `w` again (and no longer offers the report for transmission). -/
-theorem gc_race_releases_pending_work :
+/-- **gc_race_releases_pending_work_old** — before "fix: cache: ClearExpired no longer deletes
+    an entry that was renewed after the scan", `util.Cache.ClearExpired` collected expired
+    keys under the read lock and deleted them later under the write lock without looking
+    again (`Cache.deleteKeysOld`).  If `Accept` rewrote an expired-but-not-yet-collected
+    record between the two phases, the fresh record was deleted: `Accept` answered true, the
+    log says `w` has an accepted, unconfirmed report inside its window, yet the node would
+    process and propose `w` again (and no longer offered the report for transmission). -/
+theorem gc_race_releases_pending_work_old :
     let cfg : Cfg := ⟨0, 5000⟩
     let utype : String → UpkeepType := fun _ => .log
     let sys1 := run cfg [.accept "w" 7, .advance 5001]          -- record expired, not yet collected
     let toclear := sys1.st.cache.scanExpired ["w"] sys1.st.now   -- GC phase 1
     let sys2 := stepAccept cfg sys1 "w" 3                        -- Accept in between: succeeds
-    let st3 := { sys2.st with cache := sys2.st.cache.deleteKeys toclear }  -- GC phase 2
+    let st3 := { sys2.st with cache := sys2.st.cache.deleteKeysOld toclear }  -- old GC phase 2
     toclear = ["w"] ∧ sys2.log.head? = some (.accept 5001 "w" 3 true) ∧
     known cfg sys2.log st3.now "w" = some (acceptRec 3) ∧
     shouldProcess utype st3 "w" "u" 0 = true ∧ proposalAllowed utype st3 "w" "u" = true ∧
     shouldTransmit st3 "w" 3 = false := by
+  decide
+
+/-- the same schedule with the re-checking phase 2 of the current code: the accepted record
+    survives and the work stays withheld (general statement: Props/C06 `gc_two_phase_refines`) -/
+example :
+    let cfg : Cfg := ⟨0, 5000⟩
+    let utype : String → UpkeepType := fun _ => .log
+    let sys1 := run cfg [.accept "w" 7, .advance 5001]
+    let toclear := sys1.st.cache.scanExpired ["w"] sys1.st.now
+    let sys2 := stepAccept cfg sys1 "w" 3
+    let st3 := { sys2.st with cache := sys2.st.cache.deleteKeys toclear sys1.st.now }
+    shouldProcess utype st3 "w" "u" 0 = false ∧ proposalAllowed utype st3 "w" "u" = false ∧
+    shouldTransmit st3 "w" 3 = true := by
   decide
 
 end AutoVerif.C07
